@@ -268,7 +268,10 @@ func runHistory(c *vm.Ctx, r *vm.Rand, b, n, steps int, withInit bool) {
 		return
 	}
 	// read into a used storage of the same length but other width, then Fix(b)
-	ob := []int{0, 1, 4, 5, 15, 32}[r.Intn(6)]
+	ob := []int{0, 1, 4, 5, 15, 32, b, b}[r.Intn(8)]
+	if ob == b {
+		c.Cover("wire.receiver-already-at-width")
+	}
 	var dst *level.BitStorage
 	c.Guard("ctor", h.wit, func() { dst = level.NewBitStorage(ob, n, nil) })
 	if dst == nil {
@@ -302,6 +305,42 @@ func runHistory(c *vm.Ctx, r *vm.Rand, b, n, steps int, withInit bool) {
 					c.Cover("size-rule.fix-refused")
 				}
 				break
+			}
+		}
+	}
+	// a receiver that already has width b, loaded from a wire field with the wrong number of longs: Fix(b) must refuse it
+	if b >= 1 && n > 0 {
+		need := refSize(b, n)
+		for _, l := range []int{0, need - 1, need + 1, need * 2, r.Intn(need + 3)} {
+			if l < 0 || l == need {
+				continue
+			}
+			var rcv *level.BitStorage
+			if v, _ := vm.Try(func() { rcv = level.NewBitStorage(b, n, nil) }); v != nil || rcv == nil {
+				break
+			}
+			field := refwire.EncVarInt(int32(l))
+			field = append(field, r.Bytes(8*l)...)
+			var e1, e2 error
+			w := func() any {
+				m := h.wit().(map[string]any)
+				m["wire_longs"] = l
+				m["longs_needed"] = need
+				return m
+			}
+			if c.Guard("wire/wrong-length", w, func() {
+				_, e1 = rcv.ReadFrom(bytes.NewReader(field))
+				if e1 == nil {
+					e2 = rcv.Fix(b)
+				}
+			}) {
+				continue
+			}
+			c.Eval(vm.HashStr("wrong-length", fmt.Sprint(b, n, l)), true)
+			if e1 == nil && e2 == nil {
+				c.Violation("size-rule/fix-accepts-wrong-length-at-same-width", fmt.Sprintf("a %d-bit storage of %d values loaded %d longs from the wire (the packing needs %d) and Fix(%d) accepted it", b, n, l, need, b), w())
+			} else {
+				c.Cover("size-rule.fix-refused-at-same-width")
 			}
 		}
 	}
@@ -379,8 +418,8 @@ func run(c *vm.Ctx) {
 			}
 			runHistory(c, r, b, n, steps, false)
 			runHistory(c, r, b, n, steps, true)
-			if c.Thorough() {
-				runHistory(c, r, b, n, steps, true)
+			for rep := 0; rep < c.Pick(0, 24); rep++ {
+				runHistory(c, r, b, n, steps, rep%3 != 0)
 			}
 			exhaustive(c, b, n)
 		}
